@@ -576,16 +576,29 @@ Rng& net_rng() { return g.net; }
 // ---- watchdog -----------------------------------------------------------------
 namespace {
     int g_wd_secs = 0;
+    // A run hangs when the simulated thread that holds the baton neither reaches a decision point nor a
+    // heartbeat for g_wd_secs seconds of the PROCESS'S CPU TIME (only one simulated thread runs at a time, so
+    // that is the time the thread has really been computing: a machine that is merely overloaded does not
+    // make a run hang), or for 12 x g_wd_secs seconds of wall-clock time (a thread stuck in a real blocking call).
+    i64 cpu_now_ns()
+    {
+        struct timespec ts;
+        clock_gettime(CLOCK_PROCESS_CPUTIME_ID, &ts);
+        return static_cast<i64>(ts.tv_sec) * 1000000000LL + ts.tv_nsec;
+    }
     void* watchdog_main(void*)
     {
         unsigned long last = sim_raw_load(&g_progress);
+        i64 cpu_at_progress = cpu_now_ns();
         int idle_ticks = 0;
         for (;;) {
             struct timespec ts { 0, 200 * 1000 * 1000 };
             clock_nanosleep(CLOCK_MONOTONIC, 0, &ts, nullptr);
             unsigned long cur = sim_raw_load(&g_progress);
             if (sim_raw_load(&g_run_active) && cur == last) {
-                if (++idle_ticks >= g_wd_secs * 5) {
+                ++idle_ticks;
+                i64 cpu_idle = cpu_now_ns() - cpu_at_progress;
+                if (cpu_idle >= static_cast<i64>(g_wd_secs) * 1000000000LL || idle_ticks >= g_wd_secs * 5 * 12) {
                     if (g_fatal) g_fatal("hang");
                     fflush(stdout);
                     syscall(SYS_exit_group, 4);
@@ -594,11 +607,18 @@ namespace {
             } else {
                 idle_ticks = 0;
                 last = cur;
+                cpu_at_progress = cpu_now_ns();
             }
         }
         return nullptr;
     }
 }
+void heartbeat()
+{
+    // progress that is not a decision point: a harness loop around calls into the code under test
+    sim_raw_store(&g_progress, sim_raw_load(&g_progress) + (1UL << 32));
+}
+
 void start_watchdog(int secs)
 {
     static bool started = false;
